@@ -9,11 +9,12 @@ import (
 )
 
 type opts struct {
-	seed  int64
-	tier  string
-	out   string
-	cases string
-	n     int
+	seed     int64
+	tier     string
+	out      string
+	cases    string
+	n        int
+	realproc bool
 }
 
 var families = map[string]func(o opts) error{}
